@@ -5,6 +5,7 @@ import (
 	"encoding/base64"
 
 	p2pcrypto "github.com/libp2p/go-libp2p/core/crypto"
+	"golang.org/x/crypto/curve25519"
 	"golang.org/x/crypto/nacl/box"
 
 	"berty.tech/weshnet/v2/pkg/cryptoutil"
@@ -92,6 +93,19 @@ func (hc *handshakeContext) receivePeerEphemeralPubKey() error {
 	if err != nil {
 		return errcode.ErrCode_ErrSerialization.Wrap(err)
 	}
+
+	return nil
+}
+
+// Computes the shared key a.b from the Ephemeral keys. A degenerate (low-order)
+// peer key would make a.b the same constant for every own key, so that a proof
+// signed in one session verifies in any other: such keys are refused.
+func (hc *handshakeContext) computeSharedEphemeral() error {
+	if _, err := curve25519.X25519(hc.ownEphemeral[:], hc.peerEphemeral[:]); err != nil {
+		return errcode.ErrCode_ErrInvalidInput.Wrap(err)
+	}
+
+	box.Precompute(hc.sharedEphemeral, hc.peerEphemeral, hc.ownEphemeral)
 
 	return nil
 }
